@@ -1,3 +1,3 @@
 // C16 harness: finite-element runs on Shape::Hypercube<1> (see fe.hpp)
 #include "fe.hpp"
-namespace c16 { void fe_line(Cur& c, std::ostream& o, bool full) { run_fe<FEAT::Shape::Hypercube<1>>(c, o, full); } }
+namespace c16 { void fe_line(Cur& c, std::ostream& o, int mode) { run_fe<FEAT::Shape::Hypercube<1>>(c, o, mode); } }
